@@ -117,24 +117,22 @@ class Check:
         return ok
 
     def coqchk(self):
-        """Independent re-check of the compiled library with coqchk (thorough tier);
-        one run per tree state, shared through a stamp keyed by the .vo contents."""
-        h = hashlib.sha256()
+        """Independent re-check of this property's compiled theorem files and everything they depend on
+        (coqchk, thorough tier); cached by a stamp keyed on the property and the contents of all .v files."""
+        h = hashlib.sha256(self.pid.encode())
         for root, _, files in sorted(os.walk(os.path.join(COQ, "theories"))):
             for f in sorted(files):
                 if f.endswith(".v"):
                     h.update(open(os.path.join(root, f), "rb").read())
-        stamp = os.path.join(COQ, ".coqchk_" + h.hexdigest()[:16])
+        stamp = os.path.join(COQ, ".coqchk_%s_%s" % (self.pid, h.hexdigest()[:16]))
         if os.path.exists(stamp):
             self.cov["coqchk"] = open(stamp).read()
-            return "FAILED" not in self.cov["coqchk"]
-        mods = []
-        for root, _, files in sorted(os.walk(os.path.join(COQ, "theories/props"))):
-            for f in sorted(files):
-                if f.endswith(".vo"):
-                    mods.append("Ekit.props." + f[:-3])
+            return not self.cov["coqchk"].startswith("FAILED")
+        props_dir = os.path.join(COQ, "theories/props")
+        mods = ["Ekit.props." + f[:-3] for f in sorted(os.listdir(props_dir))
+                if re.fullmatch(re.escape(self.pid) + r"(_[A-Za-z0-9]+)?\.vo", f)]
         rc, out = sh(["coqchk", "-silent", "-o", "-Q", "theories", "Ekit"] + mods, cwd=COQ, timeout=7200)
-        res = ("coqchk rc=%d\n" % rc) + out[-3000:]
+        res = ("coqchk %s rc=%d\n" % (" ".join(mods), rc)) + out[-3000:]
         if rc != 0:
             res = "FAILED " + res
         open(stamp, "w").write(res)
